@@ -161,8 +161,11 @@ def oracle_curve(t, kind, iv, rows, view):
             continue
         mean, tol = exp[k]
         if abs(F(m) - mean) > tol:
-            bad.append('%s row (%s, level %s): stored %r, mean crossing of the interval\'s own data %r'
-                       % (kind, start, k, m, float(mean)))
+            bad.append('%s row (%s, level %s): stored %r, mean crossing of the interval\'s own data %r%s'
+                       % (kind, start, k, m, float(mean),
+                          '' if kind != 'rise' else ' [the segment from depth 0 at its initial level %r to its storm\'s '
+                          'total rain depth %r mm (summed over the storm\'s rainfall_intensity rows) at its final '
+                          'level %r]' % (y[0], float(x[1]), y[1])))
         if k not in set(t['dz']):
             bad.append('%s row (%s, level %s): level is not in discrete_zeta' % (kind, start, k))
     if len({(s, k) for s, k, _ in rows}) != len(rows):
@@ -385,6 +388,13 @@ def check_cl(cases, out, label):
                               % (r['stage'], type(r['exc']).__name__, r['exc'], rec['cls']), case=case)
             continue
         t = r['t']
+        if t['rain']:
+            dt = t['rain'][0][1] - t['rain'][0][0]
+            out.count('time-step:%s' % ('whole hours' if dt % 3600 == 0 else 'whole minutes' if dt % 60 == 0
+                                        else 'not whole minutes'))
+            if any(st == t['rain'][0][0] for _, st in t['zis']):
+                # measured on the tables: the first rainfall time slice of the database opens a matched storm
+                out.count('rise:matched-storm-in-first-rain-slice' + (':tampered' if tamper else ''))
         if not r['inputs_unchanged']:
             out.violation('oracle', 'rise / recession modified the classification or grid tables', case=case)
         # grid (only meaningful when the tables were not emptied)
@@ -548,6 +558,18 @@ def run(ctx, out):
             # a history: the grid step is changed after the curves were assembled, then rise / recession again
             hist = hrng.choice([g for g in G.GRID_STEPS + [10.0, 7.5, 15.0] if g != rec['grid']])
         cases.append((rec, tamper, hist))
+    # time steps that are not whole minutes / hours, and records that open in a matched storm (its first time slice is
+    # the first rainfall slice of the database): separate stream, untampered, the same oracle and model comparison
+    srng = C.rng_for(seed, PROP, 'time-steps')
+    n_odd = 0
+    for k in range(24 if tier == 'quick' else 240):
+        odd = False
+        if k % 3 != 2:
+            odd = G.ODD_TIME_STEPS[n_odd % len(G.ODD_TIME_STEPS)]       # every listed step at least once per run
+            n_odd += 1
+        rec = G.gen_curve_record(srng, G.DS_CLASSES[k % len(G.DS_CLASSES)], odd_steps=odd, open_in_storm=k % 2 == 0)
+        hist = srng.choice([g for g in G.GRID_STEPS if g != rec['grid']]) if k % 8 == 5 else None
+        cases.append((rec, None, hist))
     check_cl(cases, out, 'cl')
     gcases = [gen_grid_case(rng) for _ in range(ngrid)] + [dict(zetas=[], step=1.0)]
     check_grid(gcases, out, 'fl_grid')
@@ -555,7 +577,7 @@ def run(ctx, out):
                 'the same level (classes decay / storms with unexplained rises / sparse / record bounds on a grid '
                 'level or one ulp beside it / split levels), grid steps {1, .5, 2.5, .1, .3, 5, 2} (one case in six: 7.5, 10, 15, 20 mm, coarser than some rises), through load, '
                 'classify, set-zeta-grid, rise, recession; one case in four has its classification tables '
-                'tampered with by SQL (12 kinds); two untampered cases in seven continue with the history `set-zeta-grid -d <another '
+                'tampered with by SQL (12 kinds); 24 further untampered records (x10 thorough) have time steps of 90, 100, 450, 30, 45, 7, 1000 s (not whole minutes), 3900, 5400 s (not whole hours) and / or open in heavy rain with a matched storm in the first rainfall time slice of the database; two untampered cases in seven continue with the history `set-zeta-grid -d <another '
                 'step>`, `rise`, `recession` (each may refuse) and the same oracle is evaluated on every state the tables '
                 'pass through (grid step now stored, discrete_zeta now stored). FL: populate_zeta_grid on 1-5 levels with bounds on / beside a '
                 'grid level. Non-trivial: an untampered dataset whose rise curve and recession curve each have a '
